@@ -46,6 +46,8 @@ KEYS = ["j", "k", "l", "h", "w", "b", "$", "0", "G", "1G", "5G", "H", "M", "L", 
         ":3d\n", ":$d\n", ":1,3d\n", ":s/o/0/g\n", ":g/foo/d\n", ":2\n", ":$\n", ":1\n", ":se hll\n", ":se nohl\n", ":%p\n", ":ec hi\n", ":u\n",
         # ex lines whose last command fails after an earlier one changed text or printed lines (the status of a line is that of its last command)
         ":1d|99999p\n", ":1p|2p|99999p\n", ":s/o/0/|99999p\n", ":$d|nosuchcmd\n", ":2,3m0|99999p\n", ":g/o/s//0/|99999p\n",
+        # a terminal re-initialisation (^L, a shell escape) in the middle of a history, then inserts that scroll by a line feed on the last row
+        "\x0c", "\x0c", "\x0cLo\x05new\x1b", "\x0cLA\x05x\ny\x1b", ":!true\n\n", ":!true\n\nLo\x05sh\x1b", "Lo\x05low\x1b", "GA\x05q\nr\x1b",
         "/foo\n", "?bar\n", "n", "N", "\x07", "ma", "'a", "``",
         # scrolling that pushes the cursor off its line (cursor on the first/last row, at a column beyond tabs or wide characters)
         # puts of character-wise text that spans lines, with counts
